@@ -41,12 +41,16 @@ namespace cnl {
             }
         };
 
+        // overflow_polarity is only consulted after the operation is known to have overflowed
+
         template<>
         struct overflow_polarity<add_op> {
             template<typename Lhs, typename Rhs>
-            [[nodiscard]] constexpr auto operator()(Lhs const&, Rhs const& rhs) const
+            [[nodiscard]] constexpr auto operator()(Lhs const& lhs, Rhs const& rhs) const
             {
-                return measure_polarity(rhs);
+                // a sum involving a negative operand can only be too low
+                // (e.g. int{-5} + unsigned{3}, or int{-1} + unsigned{0})
+                return (lhs < Lhs{} || rhs < Rhs{}) ? polarity::negative : polarity::positive;
             }
         };
 
@@ -55,7 +59,9 @@ namespace cnl {
             template<typename Lhs, typename Rhs>
             [[nodiscard]] constexpr auto operator()(Lhs const&, Rhs const& rhs) const
             {
-                return -measure_polarity(rhs);
+                // only subtracting a negative number can be too high;
+                // a zero rhs overflows when lhs itself is below the result range
+                return (rhs < Rhs{}) ? polarity::positive : polarity::negative;
             }
         };
 
